@@ -128,6 +128,25 @@ pub fn minimise(harness: HarnessFn, prop: Prop, tier: Tier, found: &Found, budge
         }
     }
 
+    // 2b. A second pass of single-operation removal (earlier removals enable later ones).
+    for a in 0..n_actors {
+        let mut pos = 0;
+        while pos < scripts_len(&plan)[a] && ctx.used < ctx.budget {
+            let mut cand = plan.clone();
+            cand["actors"][a]["script"].as_array_mut().unwrap().remove(pos);
+            match ctx.try_candidate(&cand, &choices) {
+                Some((h, d, c)) => {
+                    plan = cand;
+                    hash = h;
+                    detail = d;
+                    choices = c;
+                    improved = true;
+                }
+                None => pos += 1,
+            }
+        }
+    }
+
     // 3. Arguments towards zero; simple configuration.
     for a in 0..n_actors {
         for i in 0..scripts_len(&plan)[a] {
@@ -145,6 +164,17 @@ pub fn minimise(harness: HarnessFn, prop: Prop, tier: Tier, found: &Found, budge
                     improved = true;
                 }
             }
+        }
+    }
+    if plan["sched"].as_str() == Some("pct") {
+        let mut cand = plan.clone();
+        cand["sched"] = Value::from("random");
+        if let Some((h, d, c)) = ctx.try_candidate(&cand, &choices) {
+            plan = cand;
+            hash = h;
+            detail = d;
+            choices = c;
+            improved = true;
         }
     }
     for (key, val) in [("pending_permille", 0), ("spurious_permille", 0)] {
